@@ -147,7 +147,8 @@ struct AttemptPlan {        // outcome of one TCP connection attempt / MQTT hand
 struct Fault {
     // write_stall: from the batch containing offset `at` on, writes stay pending (peer stopped reading, send buffer full),
     // nothing of them is delivered and the broker sends nothing more; only closing the stream ends them
-    enum Kind { reset_c2b, reset_b2c, write_fail_delivered, eof_b2c, write_stall } kind = reset_c2b;
+    // stall_b2c: after exactly `at` broker->client bytes nothing more arrives (possibly in the middle of a packet); the connection stays up
+    enum Kind { reset_c2b, reset_b2c, write_fail_delivered, eof_b2c, write_stall, stall_b2c } kind = reset_c2b;
     int conn_ordinal = 0;   // n-th established TCP connection (0-based)
     size_t at = 0;          // byte offset in that direction (reset when exactly `at` bytes have crossed)
     int ec = 0;             // index into the reconnectable error set
